@@ -24,10 +24,13 @@ const PROP: &str = "C41";
 fn main() {
     let args = Args::parse();
     let mut rec = Recorder::new(&args.out);
-    vh::quiet_panics();
+    if std::env::var("VH_LOUD").is_err() {
+        vh::quiet_panics();
+    }
     if let Some(p) = &args.replay {
         let lines = vh::read_replay_input(p);
         sw::replay_cases(&mut rec, PROP, &lines);
+        sw::replay_mem_cases(&mut rec, PROP, &lines);
         rec.finish(args.seed, &args.tier);
         return;
     }
@@ -37,23 +40,24 @@ fn main() {
     let fixed: Vec<(Spec, usize)> = vec![
         // remove(x) racing seals on a cached key for x
         (
-            Spec { cap: 2, keyseed: 11, wprog: vec![WOp::Add { dir: 1, par: 0 }, WOp::Rm(0)],
+            Spec { cap: 2, keyseed: 11, warm: 1, wprog: vec![WOp::Add { dir: 1, par: 0 }, WOp::Rm(0)],
                    rprogs: vec![vec![ROp::Setup { seal: true, x: 0 }, seal(0), seal(0), seal(0), ROp::Ex(0)]] },
             d(10, 13),
         ),
         // remove_all racing opens on a cached key
         (
-            Spec { cap: 2, keyseed: 12, wprog: vec![WOp::Add { dir: 2, par: 1 }, WOp::RmAll],
+            Spec { cap: 2, keyseed: 12, warm: 1, wprog: vec![WOp::Add { dir: 2, par: 1 }, WOp::RmAll],
                    rprogs: vec![vec![ROp::Setup { seal: false, x: 0 }, ROp::Open { kth: 0, fail: false }, ROp::Open { kth: 0, fail: false }, ROp::Open { kth: 0, fail: false }]] },
             d(9, 12),
         ),
         // remove_if racing two readers, one on the removed and one on the surviving channel
         (
-            Spec { cap: 3, keyseed: 13, wprog: vec![WOp::Add { dir: 1, par: 0 }, WOp::Add { dir: 1, par: 1 }, WOp::RmIf(Pred::Par(0))],
+            Spec { cap: 3, keyseed: 13, warm: 2, wprog: vec![WOp::Add { dir: 1, par: 0 }, WOp::Add { dir: 1, par: 1 }, WOp::RmIf(Pred::Par(0))],
                    rprogs: vec![vec![ROp::Setup { seal: true, x: 0 }, seal(0), seal(0)], vec![ROp::Setup { seal: true, x: 1 }, seal(0), seal(0)]] },
             d(6, 8),
         ),
     ];
     sw::drive(&mut rec, PROP, 1, &fixed, args.seed, args.budget(250, 4000), 10);
+    sw::drive_mem(&mut rec, PROP, args.seed, args.budget(300, 5000));
     rec.finish(args.seed, &args.tier);
 }
